@@ -109,7 +109,8 @@ def controlled_cases(draw, tier):
         p = base if same else draw(st.integers(0, N_PROBLEMS - 1))
         backend = "cffi" if draw(st.integers(0, 11)) == 0 else "llvm"
         calls.append([p, draw(st.integers(0, 3)), backend, int(draw(st.integers(0, 5)) == 0)])
-    kind = draw(st.sampled_from(["random", "random", "round_robin", "round_robin", "bursts", "offset", "offset"]))
+    kind = draw(st.sampled_from(["random", "random", "round_robin", "round_robin", "bursts", "offset", "offset", "pause", "pause"]))
+    pause = None
     if kind == "random":
         choices = draw(st.lists(st.integers(0, 3), min_size=50, max_size=400))
     elif kind == "round_robin":
@@ -117,6 +118,11 @@ def controlled_cases(draw, tier):
         # shared object); an optional offset de-synchronises the threads by a few lines
         choices = [0] * draw(st.integers(0, 12)) + list(range(n)) * 40
         choices = choices[: 40 * n]
+    elif kind == "pause":
+        # one thread is suspended after its k-th line inside tensora/compile/* until the others are done (check-then-act
+        # windows in the cache, the ownership table, per-call state); the others run round-robin
+        pause = [draw(st.integers(0, n - 1)), draw(st.integers(0, 90))]
+        choices = list(range(n)) * 10
     elif kind == "offset":
         # one thread runs alone for k traced lines (anywhere in the front end or the back end), then the others get
         # short bursts: a thread is preempted in the middle of a pipeline stage while another one starts that stage
@@ -126,7 +132,13 @@ def controlled_cases(draw, tier):
     else:
         b = draw(st.integers(2, 9))
         choices = [t for t in range(n) for _ in range(b)]
-    return {"mode": "controlled", "calls": calls, "choices": choices, "schedule": kind, "warm": draw(st.booleans())}
+    warm = draw(st.booleans())
+    # a kernel cache at capacity: the workload's kernels are the least recently used entries of a full cache and one call
+    # asks for a never-seen problem, so hits, misses and evictions interleave
+    full = warm and draw(st.integers(0, 3)) == 0
+    fresh = not warm and draw(st.integers(0, 3)) == 0
+    return {"mode": "controlled", "calls": calls, "choices": choices, "schedule": kind, "warm": warm, "full_cache": full,
+            "pause": pause, "fresh_process": fresh}
 
 
 @st.composite
@@ -138,7 +150,7 @@ def stress_cases(draw, tier):
         p = draw(st.sampled_from(hot)) if draw(st.integers(0, 3)) else draw(st.integers(0, N_PROBLEMS - 1))
         backend = "cffi" if draw(st.integers(0, 24)) == 0 else "llvm"
         calls.append([p, draw(st.integers(0, 3)), backend, int(draw(st.integers(0, 7)) == 0)])
-    return {"mode": "stress", "calls": calls, "rounds": 3 if tier == "quick" else 6}
+    return {"mode": "stress", "calls": calls, "rounds": 3 if tier == "quick" else 6, "fresh_process": draw(st.integers(0, 2)) == 0}
 
 
 def compare(case, seq, conc, tag):
@@ -185,10 +197,20 @@ def check(case, worker):
         labels.add("tensor_mentioned_twice")
     extra = {}
     if case["mode"] == "controlled":
+        if case.get("full_cache"):
+            labels.add("kernel_cache_full")
+        if case.get("fresh_process"):
+            worker.close()
+            labels.add("first_evaluations_of_a_fresh_process_race")
         rep = worker.call({"op": "controlled", "workload": workload, "choices": case["choices"],
-                           "warm": case.get("warm", False)}, timeout=400)
+                           "warm": case.get("warm", False), "full_cache": case.get("full_cache", False),
+                           "pause": case.get("pause"), "concurrent_first": bool(case.get("fresh_process"))}, timeout=600)
     else:
-        rep = worker.call({"op": "stress", "workload": workload, "nthreads": 16, "rounds": case["rounds"]}, timeout=900)
+        if case.get("fresh_process"):
+            worker.close()  # the next call starts a new child: nothing has been initialised, generated or compiled in it
+            labels.add("first_evaluations_of_a_fresh_process_race")
+        rep = worker.call({"op": "stress", "workload": workload, "nthreads": 16, "rounds": case["rounds"],
+                           "concurrent_first": bool(case.get("fresh_process"))}, timeout=900)
     if "crash" in rep:
         return result([fail("process-crashed", f"{case['mode']} workload {case['calls']}: {rep['crash']}")], labels,
                       True, jhash(case), {"calls": case["calls"]})
